@@ -371,11 +371,26 @@ def run(prog, tier, extra=None):
         raise LookupError("remove_block_transactions / add_block_success not found")
     sweep_blocks = set()
     chr_ = Chaser(rbt)
+    def asks_ledger(body):
+        return any((call_name(ct) or "").endswith("Transaction::validate_against_utxoset") or (call_name(ct) or "").endswith("Transaction::validate") for _, ct in body.calls())
+    removes_pooled = any(x[3] in ("remove", "replace") for x in tx_sites.get(rbt.path, (rbt, []))[1])
     for bb, t in rbt.calls():
-        if (call_name(t) or "").rsplit("::", 1)[-1] in ("retain", "retain_mut", "extract_if") and t["args"] and has_field(chr_.origin(t["args"][0]), MEMPOOL, "transactions"):
-            for cb in closure_args(rbt, bb, prog):
-                if any((call_name(ct) or "").endswith("Transaction::validate_against_utxoset") or (call_name(ct) or "").endswith("Transaction::validate") for _, ct in cb.calls()):
-                    sweep_blocks.add(bb)
+        last = (call_name(t) or "").rsplit("::", 1)[-1]
+        if not t["args"] or not has_field(chr_.origin(t["args"][0]), MEMPOOL, "transactions"):
+            continue
+        if last in ("retain", "retain_mut", "extract_if"):
+            if any(asks_ledger(cb) for cb in closure_args(rbt, bb, prog)):
+                sweep_blocks.add(bb)
+        elif last in ("filter", "partition", "filter_map", "for_each") and removes_pooled:
+            # two-phase sweep: select the pooled transactions the ledger no longer supports, then remove them one by one
+            if any(asks_ledger(cb) for cb in closure_args(rbt, bb, prog)):
+                sweep_blocks.add(bb)
+    if removes_pooled:
+        for bb, t in rbt.calls():
+            if ((call_name(t) or "").endswith("Transaction::validate_against_utxoset") or (call_name(t) or "").endswith("Transaction::validate")):
+                h = rbt.innermost_loop_containing([bb])
+                if h is not None:
+                    sweep_blocks.add(h)
     res.instance(R6)
     if not sweep_blocks:
         res.add(Finding(R6, "C14.revalidate|no-sweep", "remove_block_transactions no longer re-validates the pooled transactions against the ledger", rbt.loc(0)))
